@@ -218,10 +218,12 @@ def _class_tail(L, spec, c, uid, ps, req):
         elif sav == 'raise':
             L.append('        if node.is_mapping() and node.has_attribute("poison"):')
             L.append('            raise yatiml.SeasoningError("poisoned")')
-        elif isinstance(sav, dict) and 'default' in sav:
-            # make an omitted attribute explicit (the classic use of set_attribute)
-            L.append('        if node.is_mapping() and not node.has_attribute({!r}):'.format(sav['default']))
-            L.append('            node.set_attribute({!r}, {})'.format(sav['default'], _lit(sav['value'])))
+        elif isinstance(sav, dict) and 'fill' in sav:
+            # make omitted attributes explicit (the classic use of set_attribute)
+            L.append('        if node.is_mapping():')
+            for name, value in sav['fill']:
+                L.append('            if not node.has_attribute({!r}):'.format(name))
+                L.append('                node.set_attribute({!r}, {})'.format(name, _lit(value)))
         elif isinstance(sav, dict) and 'rebuild' in sav:
             # the documented idiom for non-scalar values: build a yaml node by hand
             # and hand it to set_attribute(); such nodes carry no marks
